@@ -6,7 +6,7 @@ RouterStepOps.tla: a router that validates hop field n-2 (as current hop or as t
 its own cross-over) or n-1 and lets the packet pass => fresh and the respective HVF valid; at every
 other hop the EPIC packet is treated exactly like its embedded SCION path.  The assemblies are
 concretised (HVFs by the harness's own CBC-MAC written from scion-header.rst, keyed with the hop
-authenticator; stale = 60 s old or 60 s in the future; bad HVF = one flipped bit), run through one
+authenticator; stale = 4 s or 60 s old, 15 s or 60 s in the future; bad HVF = one flipped bit), run through one
 real router together with their SCION twins, and judged by TLC.
 """
 import _dpadv
